@@ -161,6 +161,32 @@ class _Reader(object):
         return self._b.read(n)
 
 
+class _ShortReads(object):
+    """an open file seen through a wrapper that has fileno() (so serve_fileobj knows the length) and, as raw /
+    paced / pipe-like streams legally do, returns at most `cap` bytes per read() whatever was asked for"""
+
+    def __init__(self, f, cap=97):
+        self._f = f
+        self._cap = cap
+
+    def fileno(self):
+        return self._f.fileno()
+
+    def read(self, n=-1):
+        if n is None or n < 0 or n > self._cap:
+            n = self._cap
+        return self._f.read(n)
+
+    def seek(self, *a):
+        return self._f.seek(*a)
+
+    def tell(self):
+        return self._f.tell()
+
+    def close(self):
+        return self._f.close()
+
+
 def make_body(kind, chunks):
     if kind == 'K':
         return _ClosableIter(chunks)
@@ -256,7 +282,10 @@ def _handle():
             resp.status = int(st[1:])
         if c.get('ext', {}).get('fo'):
             # the same entity through serve_fileobj on an open file (length from fstat) as an attachment
-            return _static.serve_fileobj(open(path, 'rb'), content_type=ctype, disposition='attachment',
+            f = open(path, 'rb')
+            if int(c['ext']['fo']) == 2:
+                f = _ShortReads(f)       # fo = 2: the same, read through an object whose reads come back short
+            return _static.serve_fileobj(f, content_type=ctype, disposition='attachment',
                                          name='d\xe9p\xf4t.txt')
         return _static.serve_file(path, content_type=ctype)
     if c.get('hcl'):
@@ -296,9 +325,22 @@ class Rpc(cherrypy._cptools.XMLRPCController):
         return _handle()
 
 
+class MdRes(object):
+    """ext md: the same handler as a MethodDispatcher resource that defines GET and POST but no HEAD; the case's
+    tools are switched on in the _cp_config of the verb methods themselves, not in the path's config section"""
+    exposed = True
+
+    def GET(self, **kw):
+        return _handle()
+
+    def POST(self, **kw):
+        return _handle()
+
+
 class Root(object):
     sub = Sub()
     rpc = Rpc()
+    md = MdRes()
 
     @cherrypy.expose
     def index(self, **kw):
@@ -491,7 +533,14 @@ def make_app(case):
         app = _INIT['app'] = cherrypy.Application(Root(), '', {})
         _INIT['app_pid'] = os.getpid()
     app.config = {}
-    app.merge({'/': conf})
+    MdRes.GET._cp_config = MdRes.POST._cp_config = {}
+    if ext.get('md'):
+        toolconf = {k: v for k, v in conf.items() if k.startswith('tools.')}
+        MdRes.GET._cp_config = MdRes.POST._cp_config = toolconf
+        app.merge({'/': {k: v for k, v in conf.items() if k not in toolconf},
+                   '/md': {'request.dispatch': cherrypy.dispatch.MethodDispatcher()}})
+    else:
+        app.merge({'/': conf})
     return app
 
 
@@ -505,7 +554,8 @@ def environ_for(req, case=None):
     # ns = 1: an index resource without its slash; ns = 2: a non-index one with a slash too many
     # ns = 3: a path nothing is mounted at, with multi-byte characters (echoed in the 404 page); PATH_INFO carries the
     # UTF-8 bytes as latin-1 characters (PEP 3333)
-    path = '/rpc' if kindR else {0: '/', 1: '/sub', 2: '/sub/leaf/',
+    md = bool((case.get('ext') or {}).get('md')) and not int(req.get('ns', 0))
+    path = '/rpc' if kindR else '/md' if md else {0: '/', 1: '/sub', 2: '/sub/leaf/',
                                  3: '/nosuch-\xe9-\u4e2d\u6587'.encode('utf-8').decode('latin-1')}[int(req.get('ns', 0))]
     env = {
         'REQUEST_METHOD': req.get('m', 'GET'), 'SCRIPT_NAME': '', 'PATH_INFO': path,
